@@ -179,7 +179,7 @@ def run_case(case) -> Outcome:
     out.cls(case["entry"], dtype, "retain" if case["retain"] else "no-retain")
     if not case["forced"]:
         dual = P.run_dual(prog)
-        if not dual.max_abs < 1e6:
+        if not jdcheck.scale_ok(dtype, dual.max_abs):
             out.excluded = "values-or-tangents-exceed-1e6"
             return out
     keff = m if k is None else min(k, m)
